@@ -46,6 +46,7 @@ class C02(Check):
         mw = [{'rule': 'meek'}, {'rule': 'warren'}, {'rule': 'meek', 'arithmetic': 'fixed', 'precision': 4}]
         yield from families.seats_ties(4, spaces.QW(4), seats=(1, 2), ties='id', cfgs=mw if tier == 'quick' else mw + configs.meek_menu()[::5])
         greg = [{'rule': r} for r in configs.GREGORY] + configs.wigm_menu(full=False)
+        yield from families.seats_ties(3, spaces.HUGE(3), seats=(1, 2), ties='id', cfgs=greg[:7])    # piles of ~10^5 ballots
         if tier == 'quick':
             yield from families.seats_ties(3, spaces.W(3, 3, 3, (2, 3, 5)), seats=(1, 2), ties='id', cfgs=greg[:7] + greg[7::4])
         else:
